@@ -434,6 +434,12 @@ def run(ck, dialect, prop_module, glsl_ub_excluded=False):
     if dialect == "glsl":
         glslfold_tie(ck)
     sweep(ck, dialect, "csem", n, glsl_ub_excluded)
+    # workgroup memory through helpers, incl. a store through a ptr<workgroup, u32> parameter (shared with C15): the expected
+    # output of every entry point is computed by the generator
+    expected_sweep(ck, dialect, "cwg", {"quick": 60, "thorough": 1500}.get(ck.tier, 60), [dialect], "cwg-" + dialect,
+                   dialect + "-workgroup-program-differs",
+                   "an entry point of the emitted %s does not compute what the WGSL program prescribes for its workgroup variables "
+                   "(zero-initialised; stores through pointer parameters visible to the caller)" % dialect.upper())
     if ck.tier == "thorough":
         ck.leanchecker(["Naga.Tie.CEmit", prop_module])
     if not proved:
